@@ -148,7 +148,7 @@ func newMapReadBucketCloser(
 }
 
 func (r *mapReadBucketCloser) Get(ctx context.Context, path string) (ReadObjectCloser, error) {
-	fullPath, err := r.getFullPath("read", path)
+	path, fullPath, err := r.getFullPath("read", path)
 	if err != nil {
 		return nil, err
 	}
@@ -161,7 +161,7 @@ func (r *mapReadBucketCloser) Get(ctx context.Context, path string) (ReadObjectC
 }
 
 func (r *mapReadBucketCloser) Stat(ctx context.Context, path string) (ObjectInfo, error) {
-	fullPath, err := r.getFullPath("stat", path)
+	path, fullPath, err := r.getFullPath("stat", path)
 	if err != nil {
 		return nil, err
 	}
@@ -205,19 +205,20 @@ func (r *mapReadBucketCloser) Close() error {
 	return nil
 }
 
-func (r *mapReadBucketCloser) getFullPath(op string, path string) (string, error) {
+// getFullPath returns the normalized and validated path, and the full path within the delegate.
+func (r *mapReadBucketCloser) getFullPath(op string, path string) (string, string, error) {
 	path, err := normalpath.NormalizeAndValidate(path)
 	if err != nil {
-		return "", err
+		return "", "", err
 	}
 	if path == "." {
-		return "", errors.New("cannot get root")
+		return "", "", errors.New("cannot get root")
 	}
 	fullPath, matches := r.mapper.MapPath(path)
 	if !matches {
-		return "", &fs.PathError{Op: op, Path: path, Err: fs.ErrNotExist}
+		return "", "", &fs.PathError{Op: op, Path: path, Err: fs.ErrNotExist}
 	}
-	return fullPath, nil
+	return path, fullPath, nil
 }
 
 type mapWriteBucketCloser struct {
